@@ -956,7 +956,8 @@ Section ExportSound.
     file_sound truth (omap_ext (length st) (mask filt cv))
                (st ++ [Some fl']) (length st) fl' /\
     f_n fl' = count_true filt /\ length (f_slots fl') = 10%nat /\
-    zlen cv = zlen filt.
+    zlen cv = zlen filt /\
+    (forall b, In b (f_basins fl') -> (b_target b < length st)%nat).
   Proof.
     intros Hst Hsc Hroot Hl10 Hcv H.
     assert (Hsrc : (src < length st)%nat).
@@ -998,7 +999,10 @@ Section ExportSound.
           [ | | exact Einn].
         - intros f [f' d'] _ Hg. unfold gi in Hg. simpl.
           destruct (resolve st src f) as [d0|] eqn:Er; [|discriminate].
-          simpl in Hg. destruct (view d0) as [v|] eqn:Ev; [|discriminate].
+          simpl in Hg.
+          change (if hier then gather d0 idx_root else Some d0)
+            with (view d0) in Hg.
+          destruct (view d0) as [v|] eqn:Ev; [|discriminate].
           simpl in Hg. inversion Hg; subst.
           pose proof (resolve_sound truth omap st src f' d0 Hst Er) as Ht.
           apply mask_gather.
@@ -1096,9 +1100,18 @@ Section ExportSound.
     assert (Hnames : Forall name_ok blist').
     { apply Forall_forall. intros sb Hin. rewrite Forall_forall in Hbl'.
       destruct (Hbl' sb Hin) as (t & m' & fs & -> & _). exact I. }
-    destruct (store_basins_written blist' _ fl' Hs0 Hnames H)
+    destruct (store_basins_written blist'
+                {| f_n := count_true filt; f_innate := innate;
+                   f_slots := slots0; f_basins := [] |} fl' Hs0 Hnames H)
       as (Hfi & Hfn & Hfl & _ & bs & Hbs & HF2).
     simpl in Hfi, Hfn, Hbs.
+    assert (Htargets : forall b, In b (f_basins fl') ->
+                                 (b_target b < length st)%nat).
+    { intros b Hb. rewrite Hbs in Hb.
+      destruct (Forall2_In_r _ _ _ _ HF2 Hb) as [sb [Hsb [Hh Hk]]].
+      rewrite Forall_forall in Hbl'.
+      destruct (Hbl' sb Hsb) as (t & m' & fs & -> & Ht & _).
+      simpl in Hk. destruct Hk as [_ ->]. exact Ht. }
     split; [|repeat split; auto].
     unfold file_sound. repeat split.
     - (* stored features *)
@@ -1123,4 +1136,531 @@ Section ExportSound.
       destruct (Hbl' sb Hsb) as (t & m' & fs & -> & _).
       simpl in Hk. destruct Hk as [Hk _]. congruence.
   Qed.
+
+  Lemma get_file_app_old (st : store) x fid :
+    (fid < length st)%nat -> get_file (st ++ [x]) fid = get_file st fid.
+  Proof. intros H; unfold get_file. now rewrite nth_error_app1. Qed.
+
+  Lemma get_file_bound (st : store) fid fl :
+    get_file st fid = Some fl -> (fid < length st)%nat.
+  Proof.
+    unfold get_file; intros H.
+    destruct (nth_error st fid) eqn:E; [|discriminate].
+    apply nth_error_Some. congruence.
+  Qed.
+
+  (* The inductive step for pipelines of any length: a filtered export (from
+     a file or from a hierarchy child) maps a consistent store to a
+     consistent store, in which the new file stands for the filtered
+     origin events of its source. *)
+  Lemma export_store_sound st src root pfilts filt feats fl' cv :
+    store_sound truth omap st ->
+    scoped st ->
+    get_file st src = Some root ->
+    length (f_slots root) = 10%nat ->
+    match pfilts with
+    | [] => f_n root = zlen (omap src) /\ cv = omap src
+    | _ => exists idx, child2root pfilts = Some idx /\
+                       gather (omap src) idx = Some cv
+    end ->
+    export st src pfilts filt feats = Some fl' ->
+    store_sound truth (omap_ext (length st) (mask filt cv))
+                (st ++ [Some fl']) /\
+    scoped (st ++ [Some fl']).
+  Proof.
+    intros Hst Hsc Hroot Hl10 Hcv H.
+    destruct (export_sound st src root pfilts filt feats fl' cv
+                           Hst Hsc Hroot Hl10 Hcv H)
+      as (Hnew & _ & _ & _ & Htg).
+    assert (Hcase : forall fid fl, get_file (st ++ [Some fl']) fid = Some fl ->
+              (fid < length st)%nat /\ get_file st fid = Some fl \/
+              fid = length st /\ fl = fl').
+    { intros fid fl Hg. destruct (Nat.lt_ge_cases fid (length st)) as [Hlt|Hge].
+      - left. rewrite get_file_app_old in Hg by assumption. auto.
+      - right. pose proof (get_file_bound _ _ _ Hg) as Hb.
+        rewrite app_length in Hb; simpl in Hb.
+        assert (fid = length st) by lia. subst fid. split; [reflexivity|].
+        unfold get_file in Hg.
+        rewrite nth_error_app2, Nat.sub_diag in Hg by lia.
+        simpl in Hg. congruence. }
+    split.
+    - intros fid fl Hg. destruct (Hcase fid fl Hg) as [[Hlt Hold]|[-> ->]].
+      + destruct (Hst fid fl Hold) as (HI & HB & HN).
+        assert (Eo : omap_ext (length st) (mask filt cv) fid = omap fid).
+        { unfold omap_ext.
+          replace (Nat.eqb fid (length st)) with false
+            by (symmetry; apply Nat.eqb_neq; lia). reflexivity. }
+        unfold file_sound. rewrite Eo. repeat split.
+        * exact HI.
+        * intros b Hb Hi. specialize (HB b Hb Hi).
+          pose proof (Hsc fid fl Hold b Hb Hi) as Ht.
+          unfold omap_ext.
+          replace (Nat.eqb (b_target b) (length st)) with false
+            by (symmetry; apply Nat.eqb_neq; lia). exact HB.
+        * exact HN.
+      + exact Hnew.
+    - intros fid fl Hg b Hb Hi. rewrite app_length; simpl.
+      destruct (Hcase fid fl Hg) as [[Hlt Hold]|[-> ->]].
+      + pose proof (Hsc fid fl Hold b Hb Hi). lia.
+      + pose proof (Htg b Hb). lia.
+  Qed.
 End ExportSound.
+
+(* ------------------------------------------------------------------ *)
+(* copies (compress, repack, rtdc_copy) keep what can be looked up     *)
+(* ------------------------------------------------------------------ *)
+Definition attempt_fn (fu : nat) (st : store) (fl : file) (f : Z) (b : bdef)
+  : option obj :=
+  if provides fu st b f then
+    let data :=
+        if b_internal b then assoc f (b_int b)
+        else match lookup fu st (b_target b) f with
+             | Some o => materialize o
+             | None => None
+             end in
+    match data with
+    | None => None
+    | Some d =>
+        match b_slot b with
+        | None => Some (ODirect d)
+        | Some k => match slot (f_slots fl) k with
+                    | Some m => Some (OProxy d m)
+                    | None => None
+                    end
+        end
+    end
+  else None.
+
+Definition try_basins (att : bdef -> option obj) (bs : list bdef)
+  : option obj :=
+  match first_some att (filter b_internal bs) with
+  | Some o => Some o
+  | None =>
+      match first_some att (filter (fun b => negb (b_internal b)) bs) with
+      | Some o => Some o
+      | None => first_some att bs
+      end
+  end.
+
+Lemma lookup_S fu st fid f :
+  lookup (S fu) st fid f =
+  match get_file st fid with
+  | None => None
+  | Some fl =>
+      match assoc f (f_innate fl) with
+      | Some d => Some (ODirect d)
+      | None => try_basins (attempt_fn fu st fl f)
+                           (sorted_basins (f_basins fl))
+      end
+  end.
+Proof. reflexivity. Qed.
+
+Lemma has_feat_S fu st fid f :
+  has_feat (S fu) st fid f =
+  match get_file st fid with
+  | None => false
+  | Some fl =>
+      match assoc f (f_innate fl) with
+      | Some _ => true
+      | None => existsb (fun b => provides fu st b f) (f_basins fl)
+      end
+  end.
+Proof. reflexivity. Qed.
+
+Definition scoped_all (st : store) : Prop :=
+  forall fid fl, get_file st fid = Some fl ->
+    forall b, In b (f_basins fl) -> (b_target b < length st)%nat.
+
+Lemma existsb_ext {B} (p q : B -> bool) l :
+  (forall x, In x l -> p x = q x) -> existsb p l = existsb q l.
+Proof.
+  induction l as [|x l IH]; simpl; intros H; [reflexivity|].
+  rewrite (H x (or_introl eq_refl)), IH; auto.
+Qed.
+
+Lemma first_some_ext {B C} (p q : B -> option C) l :
+  (forall x, In x l -> p x = q x) -> first_some p l = first_some q l.
+Proof.
+  induction l as [|x l IH]; simpl; intros H; [reflexivity|].
+  rewrite (H x (or_introl eq_refl)), IH; auto.
+Qed.
+
+Lemma try_basins_ext p q bs :
+  (forall x, In x bs -> p x = q x) -> try_basins p bs = try_basins q bs.
+Proof.
+  intros H. unfold try_basins.
+  rewrite (first_some_ext p q (filter b_internal bs)),
+          (first_some_ext p q (filter (fun b => negb (b_internal b)) bs)),
+          (first_some_ext p q bs); auto;
+    intros x Hx; apply filter_In in Hx as [Hx _]; auto.
+Qed.
+
+(* adding a file does not change what older files show *)
+Lemma has_feat_ext st x :
+  scoped_all st ->
+  forall fu j f, (j < length st)%nat ->
+                 has_feat fu (st ++ [x]) j f = has_feat fu st j f.
+Proof.
+  intros Hsc fu; induction fu as [|fu IH]; intros j f Hj; [reflexivity|].
+  rewrite !has_feat_S, get_file_app_old by assumption.
+  destruct (get_file st j) as [fl|] eqn:Eg; [|reflexivity].
+  destruct (assoc f (f_innate fl)); [reflexivity|].
+  apply existsb_ext. intros b Hb. unfold provides.
+  destruct (b_feats b); [reflexivity|].
+  apply IH. exact (Hsc j fl Eg b Hb).
+Qed.
+
+Lemma lookup_ext st x :
+  scoped_all st ->
+  forall fu j f, (j < length st)%nat ->
+                 lookup fu (st ++ [x]) j f = lookup fu st j f.
+Proof.
+  intros Hsc fu; induction fu as [|fu IH]; intros j f Hj; [reflexivity|].
+  rewrite !lookup_S, get_file_app_old by assumption.
+  destruct (get_file st j) as [fl|] eqn:Eg; [|reflexivity].
+  destruct (assoc f (f_innate fl)); [reflexivity|].
+  apply try_basins_ext. intros b Hb. apply In_sorted_basins in Hb.
+  pose proof (Hsc j fl Eg b Hb) as Ht.
+  unfold attempt_fn, provides.
+  replace (match b_feats b with
+           | Some l => zmem f l
+           | None => has_feat fu (st ++ [x]) (b_target b) f
+           end)
+    with (match b_feats b with
+          | Some l => zmem f l
+          | None => has_feat fu st (b_target b) f
+          end)
+    by (destruct (b_feats b); [reflexivity|];
+        symmetry; now apply has_feat_ext).
+  now rewrite IH.
+Qed.
+
+Lemma assoc_filter_key {B} (p : Z -> bool) f (l : list (Z * B)) :
+  p f = true -> assoc f (filter (fun kv => p (fst kv)) l) = assoc f l.
+Proof.
+  intros Hp; induction l as [|[k v] l IH]; simpl; [reflexivity|].
+  destruct (f =? k) eqn:E.
+  - assert (k = f) by lia. subst. simpl. rewrite Hp. simpl.
+    now rewrite Z.eqb_refl.
+  - destruct (p k); simpl; [rewrite E|]; exact IH.
+Qed.
+
+Lemma zmem_filter f (p : Z -> bool) l :
+  p f = true -> zmem f (filter p l) = zmem f l.
+Proof.
+  intros Hp; induction l as [|x l IH]; simpl; [reflexivity|].
+  destruct (f =? x) eqn:E.
+  - assert (x = f) by lia. subst. rewrite Hp. simpl. now rewrite Z.eqb_refl.
+  - destruct (p x); simpl; [rewrite E|]; exact IH.
+Qed.
+
+(* the rewritten basin list keeps the priority order: stable sorting
+   commutes with dropping / rewriting entries that keep their key *)
+Fixpoint ssorted (l : list bdef) : Prop :=
+  match l with
+  | [] => True
+  | y :: r => (forall z, In z r -> bkey y <= bkey z) /\ ssorted r
+  end.
+
+Lemma insert_sorted_ssorted b l : ssorted l -> ssorted (insert_sorted b l).
+Proof.
+  induction l as [|y l IH]; simpl; intros H.
+  - split; [intros z []|exact I].
+  - destruct H as [Hy Hl]. destruct (bkey b <? bkey y) eqn:E; simpl.
+    + split; [|split; assumption].
+      intros z [<-|Hz]; [lia|]. specialize (Hy z Hz). lia.
+    + split; [|now apply IH].
+      intros z Hz. apply In_insert_sorted in Hz as [->|Hz]; [lia|now apply Hy].
+Qed.
+
+Lemma sorted_basins_ssorted l : ssorted (sorted_basins l).
+Proof.
+  induction l as [|b l IH]; simpl; [exact I|now apply insert_sorted_ssorted].
+Qed.
+
+Lemma insert_sorted_head b r :
+  (forall z, In z r -> bkey b < bkey z) -> insert_sorted b r = b :: r.
+Proof.
+  destruct r as [|z r]; simpl; [reflexivity|]. intros H.
+  specialize (H z (or_introl eq_refl)).
+  destruct (bkey b <? bkey z) eqn:E; [reflexivity|lia].
+Qed.
+
+Definition key_preserving (g : bdef -> list bdef) : Prop :=
+  forall x, match g x with
+            | [] => True
+            | [x'] => bkey x' = bkey x
+            | _ => False
+            end.
+
+Lemma In_flat_map_key (g : bdef -> list bdef) z s :
+  key_preserving g -> In z (flat_map g s) ->
+  exists y, In y s /\ bkey z = bkey y.
+Proof.
+  intros Hg Hz. apply in_flat_map in Hz as [y [Hy Hz]].
+  exists y; split; [assumption|]. specialize (Hg y).
+  destruct (g y) as [|y' [|? ?]]; try contradiction.
+  destruct Hz as [<-|[]]. exact Hg.
+Qed.
+
+Lemma flat_map_insert_dropped (g : bdef -> list bdef) b s :
+  g b = [] -> flat_map g (insert_sorted b s) = flat_map g s.
+Proof.
+  intros Hb; induction s as [|y s IH]; simpl.
+  - now rewrite Hb.
+  - destruct (bkey b <? bkey y); simpl; [now rewrite Hb|now rewrite IH].
+Qed.
+
+Lemma flat_map_insert_kept (g : bdef -> list bdef) b b' s :
+  key_preserving g -> g b = [b'] -> ssorted s ->
+  flat_map g (insert_sorted b s) = insert_sorted b' (flat_map g s).
+Proof.
+  intros Hg Hb; induction s as [|y s IH]; simpl; intros Hs.
+  - now rewrite Hb.
+  - destruct Hs as [Hy Hs]. pose proof (Hg b) as Kb. rewrite Hb in Kb.
+    pose proof (Hg y) as Ky.
+    destruct (bkey b <? bkey y) eqn:E; simpl.
+    + rewrite Hb. simpl.
+      destruct (g y) as [|y' [|? ?]]; try contradiction; simpl.
+      * symmetry. apply insert_sorted_head. intros z Hz.
+        destruct (In_flat_map_key g z s Hg Hz) as [w [Hw Hk]].
+        specialize (Hy w Hw). lia.
+      * rewrite Kb, Ky, E. reflexivity.
+    + rewrite (IH Hs).
+      destruct (g y) as [|y' [|? ?]]; try contradiction; simpl.
+      * reflexivity.
+      * rewrite Kb, Ky, E. reflexivity.
+Qed.
+
+Lemma sorted_basins_flat_map (g : bdef -> list bdef) l :
+  key_preserving g ->
+  sorted_basins (flat_map g l) = flat_map g (sorted_basins l).
+Proof.
+  intros Hg; induction l as [|b l IH]; simpl; [reflexivity|].
+  pose proof (Hg b) as Kb.
+  destruct (g b) as [|b' [|? ?]] eqn:Eb; try contradiction; simpl.
+  - rewrite IH. symmetry. now apply flat_map_insert_dropped.
+  - rewrite IH. symmetry.
+    apply flat_map_insert_kept; auto. apply sorted_basins_ssorted.
+Qed.
+
+Lemma first_some_flat_map (g : bdef -> list bdef) (att att' : bdef -> option obj)
+      (p : bdef -> bool) l :
+  (forall b, In b l ->
+     match g b with
+     | [] => att b = None
+     | [b'] => att' b' = att b /\ p b' = p b
+     | _ => False
+     end) ->
+  first_some att' (filter p (flat_map g l)) = first_some att (filter p l).
+Proof.
+  induction l as [|b l IH]; simpl; intros H; [reflexivity|].
+  pose proof (H b (or_introl eq_refl)) as Hb.
+  assert (IH' := IH (fun x Hx => H x (or_intror Hx))).
+  destruct (g b) as [|b' [|? ?]]; try contradiction; simpl.
+  - destruct (p b); simpl; [rewrite Hb|]; exact IH'.
+  - destruct Hb as [Ha Hp]. rewrite Hp.
+    destruct (p b); simpl; [rewrite Ha, IH'; reflexivity|exact IH'].
+Qed.
+
+Lemma try_basins_flat_map (g : bdef -> list bdef) att att' l :
+  (forall b, In b l ->
+     match g b with
+     | [] => att b = None
+     | [b'] => att' b' = att b /\ b_internal b' = b_internal b
+     | _ => False
+     end) ->
+  try_basins att' (flat_map g l) = try_basins att l.
+Proof.
+  intros H. unfold try_basins.
+  rewrite (first_some_flat_map g att att' b_internal l H).
+  rewrite (first_some_flat_map g att att' (fun b => negb (b_internal b)) l).
+  - pose proof (first_some_flat_map g att att' (fun _ => true) l) as H3.
+    assert (Hf : forall (r : list bdef), filter (fun _ => true) r = r).
+    { induction r as [|x r IHr]; simpl; [reflexivity|now rewrite IHr]. }
+    rewrite !Hf in H3. rewrite H3; [reflexivity|].
+    intros b Hb. specialize (H b Hb).
+    destruct (g b) as [|b' [|? ?]]; auto. destruct H; auto.
+  - intros b Hb. specialize (H b Hb).
+    destruct (g b) as [|b' [|? ?]]; auto. destruct H as [H1 H2].
+    split; [assumption|now rewrite H2].
+Qed.
+
+Lemma copy_basin_keys innate keep : key_preserving (copy_basin innate keep).
+Proof.
+  intros b. unfold copy_basin. destruct (b_internal b) eqn:Ei; [|reflexivity].
+  destruct (filter (fun f => zmem f keep)
+                   (match b_feats b with Some l => l | None => [] end));
+    [exact I|].
+  unfold bkey; simpl. now rewrite Ei.
+Qed.
+
+(* A copy (compress / repack / rtdc_copy with a feature selection) of a file
+   answers every lookup of a feature that is still present exactly like the
+   original does: same stored data, same basin, same map. *)
+Lemma copy_keeps_lookup st fid fl keep :
+  scoped_all st ->
+  get_file st fid = Some fl ->
+  (forall b, In b (f_basins fl) -> b_internal b = true ->
+             b_feats b <> None) ->
+  forall fu f, zmem f keep = true ->
+    lookup fu (st ++ [Some (copy_file fl keep)]) (length st) f
+    = lookup fu st fid f.
+Proof.
+  intros Hsc Hg Hint fu f Hk. destruct fu as [|fu]; [reflexivity|].
+  rewrite !lookup_S, Hg.
+  assert (Hgc : get_file (st ++ [Some (copy_file fl keep)]) (length st)
+                = Some (copy_file fl keep)).
+  { unfold get_file. rewrite nth_error_app2, Nat.sub_diag by lia.
+    reflexivity. }
+  rewrite Hgc. simpl f_innate.
+  rewrite (assoc_filter_key (fun k => zmem k keep) f _ Hk).
+  destruct (assoc f (f_innate fl)) as [d|] eqn:Ea; [reflexivity|].
+  simpl f_basins.
+  rewrite (sorted_basins_flat_map _ _ (copy_basin_keys (f_innate fl) keep)).
+  apply try_basins_flat_map.
+  intros b Hb. apply In_sorted_basins in Hb.
+  pose proof (Hsc fid fl Hg b Hb) as Ht.
+  unfold copy_basin. destruct (b_internal b) eqn:Ei.
+  - (* internal basin: rewritten to the copied features *)
+    destruct (b_feats b) as [feats|] eqn:Ef;
+      [|exfalso; now apply (Hint b Hb Ei)].
+    destruct (filter (fun f0 => zmem f0 keep) feats) as [|u used] eqn:Eu.
+    + unfold attempt_fn, provides. rewrite Ef.
+      rewrite <- (zmem_filter f (fun f0 => zmem f0 keep) feats Hk), Eu.
+      reflexivity.
+    + split; [|reflexivity].
+      unfold attempt_fn, provides; simpl. rewrite Ef, Ei.
+      change ((f =? u) || zmem f used) with (zmem f (u :: used)).
+      rewrite <- Eu, (zmem_filter f (fun f0 => zmem f0 keep) feats Hk).
+      rewrite (assoc_filter_key
+                 (fun k => zmem k keep && negb (has_key k (f_innate fl)))).
+      * reflexivity.
+      * unfold has_key. rewrite Ea, Hk. reflexivity.
+  - (* other basins are copied as they are *)
+    split; [|exact Ei].
+    unfold attempt_fn, provides. simpl f_slots.
+    replace (match b_feats b with
+             | Some l => zmem f l
+             | None => has_feat fu (st ++ [Some (copy_file fl keep)])
+                                (b_target b) f
+             end)
+      with (match b_feats b with
+            | Some l => zmem f l
+            | None => has_feat fu st (b_target b) f
+            end)
+      by (destruct (b_feats b); [reflexivity|];
+          symmetry; now apply has_feat_ext).
+    rewrite Ei. now rewrite lookup_ext.
+Qed.
+
+Example ex_copy :
+  let st := run_steps
+      [SWrite 3 [(1, [10; 11; 12]); (4, [40; 41; 42])] [];
+       SWrite 2 [(2, [7; 8])]
+              [SBFile 0 (Some [2; 0]) None None;
+               SBInternal [(3, [70; 71]); (4, [5; 6])] [1; 1]];
+       SCopy 1 [1; 2; 3]] in
+  resolve st 2 1 = Some [12; 10] /\ resolve st 2 3 = Some [71; 71] /\
+  resolve st 2 2 = Some [7; 8] /\
+  resolve st 1 4 = Some [6; 6] /\ resolve st 2 4 = Some [42; 40].
+Proof. vm_compute. repeat split. Qed.
+
+(* ------------------------------------------------------------------ *)
+(* iteration and np.array() of a mapped feature                        *)
+(* ------------------------------------------------------------------ *)
+Lemma nthz_app_mid {A} (pre : list A) a s :
+  nthz (pre ++ a :: s) (zlen pre) = Some a.
+Proof.
+  unfold nthz, zlen. destruct (Z.of_nat (length pre) <? 0) eqn:E; [lia|].
+  rewrite Nat2Z.id, nth_error_app2 by lia. now rewrite Nat.sub_diag.
+Qed.
+
+Lemma nthz_end {A} (l : list A) : nthz l (zlen l) = None.
+Proof.
+  unfold nthz, zlen. destruct (Z.of_nat (length l) <? 0) eqn:E; [lia|].
+  rewrite Nat2Z.id. apply nth_error_None. lia.
+Qed.
+
+Lemma np_index_int_nonneg {A} (l : list A) i :
+  0 <= i ->
+  np_index l (IInt i) = match nthz l i with
+                        | Some a => ROne a
+                        | None => RErr
+                        end.
+Proof.
+  intros Hi. unfold np_index, positions, norm_int.
+  destruct ((0 <=? i) && (i <? zlen l)) eqn:E1.
+  - simpl. destruct (nthz l i); reflexivity.
+  - replace ((i <? 0) && (0 <=? i + zlen l)) with false by lia.
+    destruct (nthz l i) as [a|] eqn:En; [|reflexivity].
+    apply nthz_some_lt in En. lia.
+Qed.
+
+Lemma proxy_iter_spec {A} (feat : list A) bmap is_scalar mapped :
+  gather feat bmap = Some mapped ->
+  forall suffix pre fuel cache,
+    mapped = pre ++ suffix ->
+    (length suffix < fuel)%nat ->
+    cache_ok is_scalar mapped cache ->
+    snd (proxy_iter A feat bmap is_scalar fuel (zlen pre) cache) = suffix /\
+    cache_ok is_scalar mapped
+             (fst (proxy_iter A feat bmap is_scalar fuel (zlen pre) cache)).
+Proof.
+  intros H suffix; induction suffix as [|a s IH];
+    intros pre fuel cache Hm Hf Hc; (destruct fuel as [|fu]; [simpl in Hf; lia|]);
+    simpl proxy_iter;
+    destruct (proxy_routes_agree feat bmap is_scalar mapped H cache
+                                 (IInt (zlen pre)) Hc) as [Hr Hc'];
+    destruct (proxy_getitem A feat bmap is_scalar cache (IInt (zlen pre)))
+      as [c' r]; simpl in Hr, Hc'; subst r;
+    rewrite np_index_int_nonneg by apply zlen_nonneg; subst mapped.
+  - rewrite app_nil_r, nthz_end. simpl. split; [reflexivity|].
+    now rewrite app_nil_r in Hc'.
+  - rewrite nthz_app_mid.
+    specialize (IH (pre ++ [a]) fu c').
+    replace (zlen (pre ++ [a])) with (zlen pre + 1) in IH
+      by (unfold zlen; rewrite app_length; simpl; lia).
+    rewrite <- app_assoc in IH. simpl in IH.
+    destruct (IH eq_refl ltac:(simpl in Hf; lia) Hc') as [E1 E2].
+    destruct (proxy_iter A feat bmap is_scalar fu (zlen pre + 1) c')
+      as [c'' rest]. simpl in *. split; [now rewrite E1|exact E2].
+Qed.
+
+(* indexing, iteration and np.array() of a mapped feature (scalar, image,
+   ragged) all show origin[basinmap] *)
+Lemma proxy_access_agree {A} (feat : list A) bmap is_scalar mapped :
+  gather feat bmap = Some mapped ->
+  forall cache ac,
+    cache_ok is_scalar mapped cache ->
+    snd (proxy_access A feat bmap is_scalar cache ac)
+    = direct_access mapped ac /\
+    cache_ok is_scalar mapped
+             (fst (proxy_access A feat bmap is_scalar cache ac)).
+Proof.
+  intros H cache ac Hc. destruct ac as [ix| |].
+  - exact (proxy_routes_agree feat bmap is_scalar mapped H cache ix Hc).
+  - unfold proxy_access, direct_access.
+    assert (Hlen : (length mapped < S (length bmap))%nat)
+      by (rewrite (gather_length _ _ _ H); lia).
+    destruct (proxy_iter_spec feat bmap is_scalar mapped H mapped []
+                              (S (length bmap)) cache eq_refl Hlen Hc)
+      as [E1 E2].
+    change (zlen (@nil A)) with 0 in E1, E2.
+    destruct (proxy_iter A feat bmap is_scalar (S (length bmap)) 0 cache)
+      as [c' l]. simpl in *. now subst.
+  - unfold proxy_access, direct_access, proxy_array. destruct cache as [c|].
+    + rewrite loop_gather, H. simpl. auto.
+    + destruct is_scalar eqn:Es.
+      * rewrite H. simpl. split; [reflexivity|]. right; auto.
+      * rewrite loop_gather, H. simpl. auto.
+Qed.
+
+Example ex_iter_array :
+  let feat := [10; 11; 12; 13] in
+  let bmap := [3; 3; 0; 2] in
+  snd (proxy_access Z feat bmap false None AIter) = RMany [13; 13; 10; 12] /\
+  snd (proxy_access Z feat bmap false None AArray) = RMany [13; 13; 10; 12] /\
+  snd (proxy_access Z feat bmap true (Some [13; 13; 10; 12]) AIter)
+  = RMany [13; 13; 10; 12].
+Proof. vm_compute. repeat split. Qed.
